@@ -3,6 +3,7 @@ import Chess.Model.Search
 import Chess.Model.SearchF
 import Chess.Model.Uci
 import Chess.Model.Go
+import Chess.Model.Share
 import Chess.Spec.Rules
 import Chess.Spec.Fen
 import Chess.Spec.Mates
@@ -187,16 +188,21 @@ def runOp (ctx : Ctx) (line : String) : Ctx × List String :=
       (ctx, [match r with | some t => s!"time {t}" | none => "notimer"])
     | _ => (ctx, ["badargs"])
   | "gocmd" =>
-    -- gocmd <w|b> <share of the mover's clock> <the words after `go`, verbatim>
+    -- gocmd <w|b> <the words after `go`, verbatim>: the whole of command_go's arithmetic, float expression included
     match args with
-    | side :: share :: _ =>
-      let words := (splitWs restL).drop 2
+    | side :: _ =>
+      let words := (splitWs restL).drop 1
       let pl := if side == "w" then Player.white else Player.black
-      let r := Uci.goBudget words pl (fun _ => share.toNat?.getD 0)
+      let r := Uci.goBudget words pl Share.shareF64
       let a := Uci.goArgs words
       let f := fun (x : Option Nat) => match x with | some v => toString v | none => "-"
       (ctx, [(match r with | some t => s!"time {t}" | none => "notimer") ++
         s!" limit {Uci.goLimit words} args {f a.wtime} {f a.btime} {f a.winc} {f a.binc} {f a.depth} {f a.movetime} {if a.infinite then 1 else 0}"])
+    | _ => (ctx, ["badargs"])
+  | "share" =>
+    -- share <w>: ((w as f64 * 0.02) as u64) in the exact binary64 model
+    match args with
+    | [w] => (ctx, [match w.toNat? with | some n => toString (Share.shareF64 n) | none => "badargs"])
     | _ => (ctx, ["badargs"])
   -- ---- specification evaluated on given text (independent of the model) ----
   | "spec_class" => (ctx, [specClass restL])
